@@ -1,4 +1,5 @@
 import Sudachi.Model.Oov
+import Sudachi.Model.OovTables
 /-!
 # C13: definition-file readers of the MeCab provider and the driver entry
 
@@ -245,7 +246,45 @@ def showNodes (l : List Node) : String :=
 
 def showBools (l : List Bool) : String := String.ofList (l.map (fun b => if b then '1' else '0'))
 
+/-- `hist=<text>;<text>`: the earlier texts of a recycled object (code points, `e` = the empty text, a trailing `*` = the
+result was collected - immaterial for a bare buffer) -/
+def parseHist (s : List Char) : Option (List (List Nat)) :=
+  Wire.allSome ((Wire.items ';' s).map (fun it =>
+    let it := if it.getLast? == some '*' then it.dropLast else it
+    if it == ['e'] then some [] else Wire.natList? it))
+
+/-- the tables of ONE `InputBuffer` that held the earlier texts (`reset` + `build` each, `Model/OovTables.lean`) and then the
+text of the case -/
+def caseTables (toks : List (List Char)) : Option (Option Tables) :=
+  match Wire.kv? toks "def", Wire.kv? toks "text", Wire.kv? toks "hist" with
+  | some d, some t, some h =>
+    match Wire.hexBytes? d, Wire.natList? t, parseHist h with
+    | some bytes, some chars, some hist =>
+      match CharCat.parseLines (Wire.splitOn '\n' (bytesToChars bytes)) with
+      | .error _ => some none
+      | .ok rs =>
+        let tab := CharCat.compile rs
+        let v := parseVariant toks
+        let fix := Wire.kv? toks "bow" == some "fix".toList
+        some ((hist ++ [chars]).foldl (fun acc cs => acc.bind (fun tb =>
+          (Wire.allSome (cs.map (CharCat.lookup tab))).bind (fun cats => tb.next v fix cs cats))) (some Tables.empty))
+    | _, _, _ => none
+  | _, _, _ => none
+
+/-- a `buf` line with `hist=`: the answer is read from the byte tables of the recycled object -/
+def handleBufRecycled (toks : List (List Char)) : String :=
+  match caseTables toks with
+  | none => "bad-op"
+  | some none => "err"
+  | some (some t) =>
+    let wcl := (List.range t.chars.length).map (fun i => match t.wordCandidateLength i with
+      | some k => toString k
+      | none => "P")
+    "ok cats=" ++ Wire.showNats t.cat ++ " cont=" ++ Wire.showNats t.cont ++
+    " bow=" ++ showBools t.bow ++ " wcl=" ++ Wire.joinWith "," wcl
+
 def handleBuf (toks : List (List Char)) : String :=
+  if (Wire.kv? toks "hist").isSome then handleBufRecycled toks else
   match caseBuf toks with
   | none => "bad-op"
   | some none => "err"
